@@ -60,6 +60,27 @@ def make_db(kind, d, FSM):
     return db
 
 
+class VoteNo(Exception):
+    pass
+
+
+class NoVoter:
+    """a second participant, sorted after the connection, that votes no: the storage has voted and must roll back"""
+
+    def __init__(self, tm):
+        self.transaction_manager = tm
+
+    def sortKey(self):
+        return 'z' * 40
+
+    def tpc_vote(self, t):
+        raise VoteNo()
+
+    def abort(self, t):
+        pass
+    tpc_begin = commit = tpc_finish = tpc_abort = abort
+
+
 def run_schedule(seed, kind, strategy, scratch, park=None, stick=0.9, pct_depth=2, packer=False, lines=True, collect_locs=False,
                  force_undo=False):
     """one world, one schedule -> dict(c02=[...], c03=[...], sched failures, stats)"""
@@ -133,12 +154,14 @@ def run_schedule(seed, kind, strategy, scratch, park=None, stick=0.9, pct_depth=
                         cnt.value += dlt
                         rec['delta'] = dlt
                     tm.get().note(tok)
+                    if rnd.random() < 0.25:
+                        tm.get().join(NoVoter(tm))          # the commit fails after the storage voted
                     s.log('commit_call', name)
                     tm.commit()
                     rec['outcome'] = 'ok'
                     rec['ret'] = s.log('commit_ret', name)
                     rec['tid'] = None        # attributed after the run from the storage history (unique token)
-                except ConflictError as e:
+                except (ConflictError, VoteNo) as e:
                     rec['outcome'] = type(e).__name__
                     tm.abort()
                 txlog.append(rec)
@@ -236,7 +259,8 @@ def run_schedule(seed, kind, strategy, scratch, park=None, stick=0.9, pct_depth=
     if not ok and not fails:
         fails.append(('watchdog', 60))
     out = {'c02': [], 'c03': [], 'sched': fails, 'pack': pres, 'switches': s.switches, 'decisions': len(s.trace), 'digest': s.digest(),
-           'locs': dict(s.locs) if collect_locs else None, 'overlap': 0, 'ok_commits': 0, 'conflicts': 0, 'reader_txns': 0, 'undos': 0}
+           'locs': dict(s.locs) if collect_locs else None, 'overlap': 0, 'ok_commits': 0, 'conflicts': 0, 'reader_txns': 0, 'undos': 0,
+           'vote_failures': len([t for t in txlog if t.get('outcome') == 'VoteNo'])}
     if fails:
         # the world may hold locks for ever: do not touch it again
         return out
